@@ -226,6 +226,11 @@ theorem mbFlush_fields (fl) (s : St) :
     (mbFlush fl s).shell = s.shell ∧ (mbFlush fl s).sentOk = s.sentOk := by
   unfold mbFlush; split <;> exact ⟨rfl, rfl, rfl, rfl, rfl⟩
 
+theorem mbFlushMid_fields (fl) (s : St) :
+    (mbFlushMid fl s).buf = s.buf ∧ (mbFlushMid fl s).recvOk = s.recvOk ∧ (mbFlushMid fl s).consumed = s.consumed ∧
+    (mbFlushMid fl s).shell = s.shell ∧ (mbFlushMid fl s).sentOk = s.sentOk := by
+  unfold mbFlushMid; split <;> exact ⟨rfl, rfl, rfl, rfl, rfl⟩
+
 theorem mbGot_fields (fl) (s : St) (k b) :
     (mbGot fl s k b).buf = s.buf ∧ (mbGot fl s k b).recvOk = s.recvOk ∧ (mbGot fl s k b).consumed = s.consumed ∧
     (mbGot fl s k b).shell = s.shell ∧ (mbGot fl s k b).sentOk = s.sentOk := by
@@ -267,7 +272,7 @@ theorem recvStep_popped {fl cfg s t f hd n got s' p'} (hs : recvStep fl cfg s t 
     · cases hs
       refine ⟨?_, trivial⟩
       split
-      · obtain ⟨f1, f2, f3, f4, f5⟩ := mbFlush_fields fl (mbGot fl (s.pop hd.name.idx k) k false)
+      · obtain ⟨f1, f2, f3, f4, f5⟩ := mbFlushMid_fields fl (mbGot fl (s.pop hd.name.idx k) k false)
         exact pop _ _ rfl (f1.trans g1) (f2.trans g2) (f3.trans g3) (f4.trans g4) (f5.trans g5)
       · exact pop _ _ rfl g1 g2 g3 g4 g5
     · cases hs
